@@ -368,9 +368,11 @@ Definition adj_mb0 : adj :=
 Definition mb0_stream : bytes :=
   [80;79;83;84;32;47;32;72;84;84;80;47;49;46;49;13;10;84;114;97;110;115;102;101;114;45;69;110;99;111;100;105;110;103;58;32;99;104;117;110;107;101;100;13;10;13;10].
 
-(* "GET \x01http://[/ HTTP/1.1\r\n\r\n": urlsplit strips the leading C0 control, then sees an
-   unbalanced '[' -> 400; the reference (target = any octets but SP CR LF; IP-literal test only
-   on a target that starts with a scheme) delivers it *)
+(* "GET \x01http://[/ HTTP/1.1\r\n\r\n": a C0 control byte in the target.  Until /repo fix (control
+   characters refused in the request-target) this was a witness against the unconditional statement:
+   urlsplit stripped the leading C0 control and then saw an unbalanced '[' -> 400, while the reference
+   (target = any octets but SP CR LF) delivered it.  Now the request-line gate and the reference both
+   refuse the line: the stream is kept as a regression example of agreement. *)
 Definition c0_target_stream : bytes :=
   [71;69;84;32;1;104;116;116;112;58;47;47;91;47;32;72;84;84;80;47;49;46;49;13;10;13;10].
 
@@ -383,10 +385,10 @@ Lemma full_dev_refuted_zero_body_limit :
   map ref_view (ref_run_dev (cfg_of adj_mb0) all_devs mb0_stream) = [ORefuse 413].
 Proof. split; vm_compute; reflexivity. Qed.
 
-Lemma full_dev_refuted_c0_target :
+Lemma full_dev_c0_target_agree :
   observe (feed adj0 chan_init [c0_target_stream]) = Some [ORefuse 400] /\
-  exists m, map ref_view (ref_run_dev (cfg_of adj0) all_devs c0_target_stream) = [ODeliver [71;69;84] m [49;46;49] [] [] false].
-Proof. split; [|eexists]; vm_compute; reflexivity. Qed.
+  map ref_view (ref_run_dev (cfg_of adj0) all_devs c0_target_stream) = [ORefuse 400].
+Proof. split; vm_compute; reflexivity. Qed.
 
 Lemma full_dev_unmodelled_bracket : feed adj0 chan_init [bracket_stream] = CUnmodelled.
 Proof. vm_compute. reflexivity. Qed.
